@@ -56,10 +56,12 @@ def run_case(case):
 
 def unit(case):
     import numpy as np
-    from bldfm.utils import compute_wind_fields
+    from bldfm.utils import compute_wind_fields as _cwf
     import bldfm
 
-    from vlib import gen
+    from vlib import gen, purity
+
+    compute_wind_fields = purity.guarded(_cwf, "compute_wind_fields")
 
     rng = gen.rng_for(case["seed"], "C08u", case["idx"])
     viol = []
